@@ -8,6 +8,7 @@ import Atomman.Generated.WrapSource
 import Mathlib.Tactic.Ring
 import Mathlib.Tactic.FieldSimp
 import Mathlib.Algebra.Order.Field.Basic
+import Mathlib.Tactic.Linarith
 
 namespace Atomman.C05
 open Atomman
@@ -56,6 +57,7 @@ theorem transformOK_eq_with (t : M3 Rat) : transformOK t = transformOKWith normT
     and the two statement pins. -/
 theorem gen_protocol_eq_model :
     WrapSource.vectsSetterSteps = setVectsSteps ∧ WrapSource.originSetterSteps = setOriginSteps ∧
+    WrapSource.pbcGetterSteps = pbcGetterSteps ∧ WrapSource.pbcSetterSteps = pbcSetterSteps ∧
     WrapSource.boxSetDispatch = boxSetTargets ∧ WrapSource.boxSetDispatch.map Prod.fst = boxSetDispatch ∧
     WrapSource.angleGetters = angleRows ∧ WrapSource.abcGuard = abcGuardTests ∧
     WrapSource.atomsPropPin = atomsPropPin ∧ WrapSource.vectAngleTailPin = vectAngleTailPin := by
@@ -135,6 +137,75 @@ theorem gen_vectAngleCos_eq_model [Field K] (sqrt : K → K) (v : M3 K) :
   refine ⟨?_, ?_, ?_⟩ <;>
     simp only [WrapSource.vectAngleCos, cosAlpha, cosBeta, cosGamma, lenA, lenB, lenC, vdiv, V3.dot, div_mul_div_comm,
       add_div]
+
+/-! ### the refusal of `set_abc` in terms of cosines -/
+
+section guard
+variable [Field K] [LinearOrder K] [IsStrictOrderedRing K]
+
+/-- what is assumed of `180 * arccos(x) / pi`: strictly decreasing on [-1, 1], 0 at 1, 180 at -1. -/
+structure ArccosDeg (acos : K → K) : Prop where
+  anti : ∀ x y : K, -1 ≤ x → x < y → y ≤ 1 → acos y < acos x
+  at_one : acos 1 = 0
+  at_neg_one : acos (-1) = 180
+
+/-- one angle: `vect_angle` (clamp, then `acos`) gives an angle `≤ 0` or `≥ 180` exactly when the cosine it formed is not
+    strictly between -1 and 1. -/
+theorem angle_rejected_iff (acos : K → K) (h : ArccosDeg acos) (c : K) :
+    (acos (clampCos c) ≤ 0 ∨ acos (clampCos c) ≥ 180) ↔ ¬ (-1 < c ∧ c < 1) := by
+  unfold clampCos
+  by_cases h1 : c < -1
+  · simp only [h1, if_true, h.at_neg_one]
+    constructor
+    · intro _ hc; linarith [hc.1]
+    · intro _; right; exact le_refl _
+  · simp only [h1, if_false]
+    by_cases h2 : 1 < c
+    · simp only [h2, if_true, h.at_one]
+      constructor
+      · intro _ hc; linarith [hc.2]
+      · intro _; left; exact le_refl _
+    · simp only [h2, if_false]
+      have hc1 : -1 ≤ c := not_lt.mp h1
+      have hc2 : c ≤ 1 := not_lt.mp h2
+      constructor
+      · rintro (hle | hge) ⟨ha, hb⟩
+        · have := h.anti c 1 hc1 hb le_rfl
+          rw [h.at_one] at this
+          exact absurd hle (not_le.mpr this)
+        · have := h.anti (-1) c le_rfl ha hc2
+          rw [h.at_neg_one] at this
+          exact absurd hge (not_le.mpr this)
+      · intro hn
+        by_cases ha : -1 < c
+        · have hb : c = 1 := le_antisymm hc2 (not_lt.mp (fun hb => hn ⟨ha, hb⟩))
+          left; rw [hb, h.at_one]
+        · have hb : c = -1 := le_antisymm (not_lt.mp ha) hc1
+          right; rw [hb, h.at_neg_one]
+
+/-- **gen_abcGuard_eq_angleGuard**: the refusal at the head of `set_abc` as regenerated from the source, applied to the
+    angles `vect_angle` returns (clamped cosine through ANY function with the three properties of `180·arccos/π`), is the
+    negation of the model's test on the cosines; with `angleGuard` = that test on `cosAlpha`, `cosBeta`, `cosGamma`. -/
+theorem gen_abcGuard_eq_angleGuard (acos : K → K) (h : ArccosDeg acos) (ca cb cg : K) :
+    WrapSource.anglesRejected (acos (clampCos ca)) (acos (clampCos cb)) (acos (clampCos cg))
+      = !(cosStrict ca && cosStrict cb && cosStrict cg) := by
+  have ha := angle_rejected_iff acos h ca
+  have hb := angle_rejected_iff acos h cb
+  have hg := angle_rejected_iff acos h cg
+  have e1 : ∀ A B G : K, WrapSource.anglesRejected A B G = true ↔
+      ((A ≤ 0 ∨ A ≥ 180) ∨ (B ≤ 0 ∨ B ≥ 180) ∨ (G ≤ 0 ∨ G ≥ 180)) := by
+    intro A B G
+    simp only [WrapSource.anglesRejected, Bool.or_eq_true, decide_eq_true_eq, or_assoc]
+  have e2 : ∀ c : K, cosStrict c = true ↔ (-1 < c ∧ c < 1) := by
+    intro c; simp only [cosStrict, Bool.and_eq_true, decide_eq_true_eq]
+  have e3 : (!(cosStrict ca && cosStrict cb && cosStrict cg)) = true ↔
+      ¬ ((-1 < ca ∧ ca < 1) ∧ (-1 < cb ∧ cb < 1) ∧ (-1 < cg ∧ cg < 1)) := by
+    rw [← e2 ca, ← e2 cb, ← e2 cg]
+    cases cosStrict ca <;> cases cosStrict cb <;> cases cosStrict cg <;> simp
+  rw [Bool.eq_iff_iff, e1, ha, hb, hg, e3]
+  simp only [not_and_or, or_assoc]
+
+end guard
 
 /-! ### the bodies -/
 
